@@ -133,8 +133,12 @@ func (i Info) AppendHash(dst []byte, h hash.Hash) []byte {
 			if f.Var == "FORM_TYPE" {
 				// Use the value as it appears on the wire, whatever the type of the
 				// field.
-				if !hasType && len(f.Raw) > 0 {
-					formType, hasType = f.Raw[0], true
+				// A well formed form has one; take the smallest otherwise so that the
+				// order of fields and values never matters.
+				for _, val := range f.Raw {
+					if !hasType || val < formType {
+						formType, hasType = val, true
+					}
 				}
 				return
 			}
